@@ -155,12 +155,60 @@ def lineSpecViolation (prop : String) (cols : List LineSpec.Col) (input : Bytes)
         | some (clause, inSub) => some (if inSub then "subrow-flatten:" ++ clause else clause)
     | _ => some "no-trailing-newline"
 
+/-- C14 at column level (the generator declares date-time / timestamp columns only): every input
+    member that is a date-time string with an explicit offset comes out as the same instant — and, when
+    written as a date-time, with the same offset and no sub-second digits. -/
+def c14LineViolation (input : Bytes) (i : Impl) : Option String :=
+  if i.panic then some "panic"
+  else if !i.ok then
+    -- a readable date-time within years 0..9999 is not rejected
+    let (inMs, okIn) := Json.unmarshal input
+    if okIn && inMs.toList.all (fun kv => match kv.2 with
+        | .str s => (match Time.parseRFC3339 s with
+          | some t => let y := Time.year t; 0 ≤ y && y ≤ 9999 && t.off % 60 == 0 && t.off.natAbs < 86400
+          | none => false)
+        | _ => false) && !inMs.toList.isEmpty then some "explicit-offset-string-rejected"
+    else none
+  else
+    match i.bytes.reverse with
+    | 0x0A :: revBody =>
+      let (outMs, okOut) := Json.unmarshal revBody.reverse
+      let (inMs, okIn) := Json.unmarshal input
+      if !okOut || !okIn then some "invalid-json-object"
+      else
+        inMs.toList.foldl (fun (acc : Option String) kv =>
+          match acc with
+          | some _ => acc
+          | none =>
+            match kv.2 with
+            | .str s =>
+              match Time.parseRFC3339 s with
+              | some want =>
+                match LineSpec.lookupJV outMs kv.1 with
+                | some (.str out) =>
+                  (match Time.parseRFC3339 out with
+                   | some back =>
+                     if back.sec != want.sec then some "instant-changed"
+                     else if back.off != want.off then some "offset-changed"
+                     else if back.nsec != 0 then some "subsecond-not-dropped"
+                     else none
+                   | none => some "written-text-unreadable")
+                | some (.num lit) =>
+                  (match IntText.parseInt0 lit 64 with
+                   | some v => if v == want.sec then none else some "timestamp-differs-from-instant"
+                   | none => some "timestamp-not-an-integer")
+                | _ => some "member-missing-or-wrong-type"
+              | none => none
+            | _ => none) none
+    | _ => some "no-trailing-newline"
+
 def oracle (prop : String) (cols : Option (List LineSpec.Col)) (input : Bytes) (i : Impl) : Option String :=
   if prop == "C01" then c01Violation i
   else if prop == "C03" || prop == "C04" then
     match cols with
     | some cols => lineSpecViolation prop cols input i
     | none => none
+  else if prop == "C14" then c14LineViolation input i
   else if i.panic then some "panic" else none
 
 def judge (prop : String) (what : String) (m : Outcome (Bytes × Option ErrClass)) (implS : String)
